@@ -50,6 +50,7 @@ package diff
 // non-overlapping like the diffs).
 //@ func diffRunes
 //@   mode int
+//@   requires[faithful] u8_faithful(arr(before), off(before), len(before)) && u8_faithful(arr(after), off(after), len(after))
 //@   loop 0 invariant -1 <= rangeindex && rangeindex < len(diffs) && len(diffs) == lcs_n && len(res) == lcs_n && isfresh(res) && isfresh(diffs)
 //@   loop 0 invariant forall i int :: 0 <= i && i < lcs_n ==> diffs[i].Start == lcs_s[i] && diffs[i].End == lcs_e[i] && diffs[i].ReplStart == lcs_rs[i] && diffs[i].ReplEnd == lcs_re[i]
 //@   loop 0 invariant 0 <= lastEnd && lastEnd <= len(before) && (rangeindex >= 0 ==> lastEnd == lcs_e[rangeindex]) && (rangeindex < 0 ==> lastEnd == 0)
@@ -59,5 +60,71 @@ package diff
 //@   ensures[len]     len(result) == lcs_n
 //@   ensures[offsets] forall k int :: 0 <= k && k < lcs_n ==> result[k].Start == u8pre(arr(before), off(before)+lcs_s[k]) - u8pre(arr(before), off(before)) && result[k].End == u8pre(arr(before), off(before)+lcs_e[k]) - u8pre(arr(before), off(before))
 //@   modifies lcs_n, lcs_s, lcs_e, lcs_rs, lcs_re
+//@   safe
+//@   property C22
+
+// ASCII texts: byte offsets are the diff's own offsets.
+//@ extern lcs.DiffBytes
+//@   mode int
+//@   ensures len(result) == lcs_n && lcs_n >= 0 && isfresh(result)
+//@   ensures forall i int :: 0 <= i && i < lcs_n ==> result[i].Start == lcs_s[i] && result[i].End == lcs_e[i] && result[i].ReplStart == lcs_rs[i] && result[i].ReplEnd == lcs_re[i]
+//@   ensures forall i int :: 0 <= i && i < lcs_n ==> 0 <= lcs_s[i] && lcs_s[i] <= lcs_e[i] && lcs_e[i] <= len(a) && 0 <= lcs_rs[i] && lcs_rs[i] <= lcs_re[i] && lcs_re[i] <= len(b)
+//@   ensures forall i int :: 0 <= i && i+1 < lcs_n ==> lcs_e[i] <= lcs_s[i+1]
+//@   modifies lcs_n, lcs_s, lcs_e, lcs_rs, lcs_re
+//@   trusted
+//@ func diffASCII
+//@   mode int
+//@   loop 0 invariant -1 <= rangeindex && rangeindex < len(diffs) && len(diffs) == lcs_n && len(res) == lcs_n && isfresh(res) && isfresh(diffs)
+//@   loop 0 invariant forall i int :: 0 <= i && i < lcs_n ==> diffs[i].Start == lcs_s[i] && diffs[i].End == lcs_e[i] && diffs[i].ReplStart == lcs_rs[i] && diffs[i].ReplEnd == lcs_re[i]
+//@   loop 0 invariant forall k int :: 0 <= k && k <= rangeindex ==> res[k].Start == lcs_s[k] && res[k].End == lcs_e[k]
+//@   ensures[len]     len(result) == lcs_n
+//@   ensures[offsets] forall k int :: 0 <= k && k < lcs_n ==> result[k].Start == lcs_s[k] && result[k].End == lcs_e[k]
+//@   modifies lcs_n, lcs_s, lcs_e, lcs_rs, lcs_re
+//@   safe
+//@   property C22
+
+// ---- decoding must be faithful before rune offsets are turned into byte offsets of the original text:
+// []rune(s) and runes(b) replace every invalid byte by U+FFFD (3 bytes in UTF-8), after which the UTF-8 length
+// of a rune prefix is no longer the byte offset in s. u8_faithful(runes) says no such replacement happened;
+// the engine links it to u8_valid_str(s) at every []rune(s) conversion.
+//@ spec (declare-fun u8_valid_str (Str) Bool)
+//@ spec (declare-fun u8_faithful ((Array Int Int) Int Int) Bool)
+//@ spec (declare-fun u8_valid_bytes ((Array Int Int) Int Int) Bool)
+//@ extern utf8.ValidString
+//@   mode int
+//@   ensures result == u8_valid_str(s)
+//@   pure
+//@   trusted
+//@ extern utf8.Valid
+//@   mode int
+//@   ensures result == u8_valid_bytes(arr(p), off(p), len(p))
+//@   pure
+//@   trusted
+//@ func runes
+//@   mode int
+//@   ensures isfresh(result)
+//@   ensures u8_faithful(arr(result), off(result), len(result)) == u8_valid_bytes(arr(bytes), off(bytes), len(bytes))
+//@   trusted
+//@ func isASCII
+//@   pure
+//@   trusted
+//@ func isASCIIByte
+//@   pure
+//@   trusted
+//@ extern bytes.Equal
+//@   pure
+//@   trusted
+
+// Strings / Bytes: every path into diffRunes has established that both texts decode faithfully.
+//@ func Strings
+//@   mode int
+//@   modifies lcs_n, lcs_s, lcs_e, lcs_rs, lcs_re
+//@   noframe
+//@   safe
+//@   property C22
+//@ func Bytes
+//@   mode int
+//@   modifies lcs_n, lcs_s, lcs_e, lcs_rs, lcs_re
+//@   noframe
 //@   safe
 //@   property C22
